@@ -22,6 +22,7 @@ use vcommon::{Args, Report, Rng, Value, json, panics};
 
 use super::{
     Beh, Env, FlagWaker, H, Joined, Out, OwnerWaker, SendM, TaskRec, World, classify_join, end_state, finish_accounting,
+    slow_waker,
 };
 
 #[derive(Clone, Debug, PartialEq)]
@@ -165,6 +166,8 @@ struct ThreadIn {
     recs: Vec<Arc<TaskRec>>,
     w: Arc<World>,
     keep_leftovers: bool,
+    /// yields inside `clone()` of the join waker (0 = plain Arc waker)
+    slow_join_waker: u32,
 }
 
 #[derive(Default)]
@@ -234,7 +237,11 @@ fn thread_main(mut i: ThreadIn) -> ThreadOut {
                 let Some(mut h) = i.handles.get_mut(t).and_then(|h| h.take()) else { continue };
                 let rec = i.recs[t].clone();
                 let flag = Arc::new(FlagWaker::default());
-                let waker = Waker::from(flag.clone());
+                let waker = if i.slow_join_waker > 0 {
+                    slow_waker(flag.clone(), i.slow_join_waker)
+                } else {
+                    Waker::from(flag.clone())
+                };
                 let mut result = None;
                 let mut unwoken_at = None;
                 'join: loop {
@@ -443,6 +450,7 @@ fn run(p: &Prog) -> RunOut {
             recs: recs.clone(),
             w: w.clone(),
             keep_leftovers: p.leftovers != 0,
+            slow_join_waker: if p.salt & 2 != 0 { 1 + (p.salt >> 2 & 1) as u32 } else { 0 },
         };
         joins.push(thread::spawn(move || thread_main(input)));
     }
